@@ -210,3 +210,5 @@ T('C07', 'fallback-pad-nonzero', 'proximity.py', "            pad_y = pad_x = 0"
 M('C07', 'ys-grid-tiled', 'proximity.py', "ys = np.repeat(raster[y].data, raster.shape[1]).reshape(raster.shape)", "ys = np.tile(raster[y].data, raster.shape[1]).reshape(raster.shape)", 'P7-grid')
 T('C07', 'pad-ceil', 'proximity.py', "pad_y = int(max_distance / cellsize_y + 0.5)", "pad_y = int(np.ceil(max_distance / cellsize_y))")
 T('C07', 'pad-plus-one', 'proximity.py', "pad_x = int(max_distance / cellsize_x + 0.5)", "pad_x = int(max_distance / cellsize_x + 1)")
+T('C18', 'trim-cols-within-rows', 'zonal.py', "        left = x\n        for y in range(rows):", "        left = x\n        for y in range(top, bottom + 1):")
+M('C18', 'trim-cols-within-rows-short', 'zonal.py', "        left = x\n        for y in range(rows):", "        left = x\n        for y in range(top, bottom):", 'T2-line')
